@@ -446,3 +446,14 @@ func (r *relay) forge(authentic []byte) []byte {
 	}
 	return []byte{}
 }
+
+// lossy makes the relay drop messages with the given per-mille rate until the
+// given instant (streams stay up).
+func (r *relay) lossy(until time.Duration, dropPm int) {
+	r.mu.Lock()
+	r.f.until = until
+	r.f.dropPm = dropPm
+	r.f.recvErrPm, r.f.sendErrPm, r.f.openErrPm, r.f.delayPm, r.f.fullPm = 0, 0, 0, 0, 0
+	r.mu.Unlock()
+	r.rc.Fault("relay-lossy-period")
+}
